@@ -1,8 +1,111 @@
-import DulwichModel.Model.Config
+/-
+  C20 — Configuration files round-trip and mean the same to dulwich and git.
+
+  Only property theorems, non-vacuity examples and negation witnesses live here; helper lemmas are
+  in Lemmas/Config.lean.  The model is Model/Config.lean; every table and syntax byte it uses comes
+  from Gen/Config.lean, which the translator regenerates from /repo on every run.
+-/
+import DulwichModel.Lemmas.Config
+
 namespace Dulwich.Props.C20
 open Dulwich Dulwich.Config
 
+/-! ## 1. value round trip: `_parse_string(_format_string(v)) == v` -/
+
+/-- The statement the property makes about values, in full. It is FALSE for the code as it stands
+(`valueRoundtripStatement_false`); the theorem that holds is `value_roundtrip` under `wfValue`. -/
+def valueRoundtripStatement : Prop := ∀ v : Bytes, parseString (formatString v) = .ok v
+
+/-- the reader's loop returns the value on what the writer emitted (before `strip()` is considered) -/
+theorem parseLoop_format (v : Bytes) (h : wfValue v = true) :
+    parseLoop (formatString v) [] [] false = .ok v := by
+  obtain ⟨h13, hq | ⟨hq, h59, _, _⟩⟩ := wfValue_unpack h
+  · -- quoted: `"` escaped `"`
+    simp only [formatString, hq, if_true, escapeValue_eq, Gen.Config.formatQuoteOpen,
+      Gen.Config.formatQuoteClose, List.cons_append, List.nil_append]
+    rw [parseLoop_cons_ne 34 _ [] [] false (by decide)]
+    simp only [Gen.Config.parseQuoteChar, if_true, Bool.not_false]
+    rw [parseLoop_quoted v [34] [] h13, parseLoop_cons_ne 34 [] _ [] true (by decide)]
+    simp [Gen.Config.parseQuoteChar, parseLoop, parseFinish]
+  · -- unquoted
+    obtain ⟨_, hlast, h35⟩ := needsQuote_false hq
+    have hf : formatString v = v.flatMap escByte := by simp [formatString, hq, escapeValue_eq]
+    rw [hf]
+    have := parseLoop_plain v [] [] [] h13 h35 h59
+    rw [List.append_nil] at this
+    rw [this]
+    rcases List.eq_nil_or_concat v with rfl | ⟨ys, l, rfl⟩
+    · rfl
+    · rw [List.concat_eq_append] at hlast ⊢
+      have hl : l ≠ 32 := (hlast l (by simp)).1
+      rw [absorb_last ys l hl]
+      simp [parseLoop, parseFinish]
+
+/-- the writer's output starts and ends with bytes `strip()` keeps (or is empty) -/
+theorem edges_format (v : Bytes) (h : wfValue v = true) : Edges (formatString v) := by
+  obtain ⟨h13, hq | ⟨hq, _, hh, hl⟩⟩ := wfValue_unpack h
+  · right
+    refine ⟨34, 34, ?_, by decide, ?_, by decide⟩
+    · simp [formatString, hq, Gen.Config.formatQuoteOpen]
+    · simp [formatString, hq, Gen.Config.formatQuoteClose]
+  · obtain ⟨hh', hl', _⟩ := needsQuote_false hq
+    have hf : formatString v = v.flatMap escByte := by simp [formatString, hq, escapeValue_eq]
+    rw [hf]
+    apply edges_escaped
+    · intro a ha
+      have hm : a ∈ v := List.mem_of_mem_head? (by rw [ha]; rfl)
+      exact ⟨(hh' a ha).2, (hh' a ha).1, (hh a ha).1, (hh a ha).2, fun e => h13 (e ▸ hm)⟩
+    · intro b hb
+      have hm : b ∈ v := List.mem_of_getLast? hb
+      exact ⟨(hl' b hb).2, (hl' b hb).1, (hl b hb).1, (hl b hb).2, fun e => h13 (e ▸ hm)⟩
+
+/-- **Value round trip.** For every value `v` with `wfValue v` — no CR; and, if the writer's rule leaves it
+unquoted (no `#`, no leading/trailing space or tab), no `;` and no VT/FF as first or last byte —
+reading what `_format_string` wrote gives `v` back. -/
+theorem value_roundtrip (v : Bytes) (h : wfValue v = true) :
+    parseString (formatString v) = .ok v := by
+  unfold parseString
+  rw [strip_of_edges (edges_format v h), parseLoop_format v h]
+
+/-- the same through the text `from_file` actually hands to `_parse_string` for a line
+`\tkey = VALUE\n`: a space, the formatted value, LF -/
+theorem value_roundtrip_in_line (v : Bytes) (h : wfValue v = true) :
+    parseString (32 :: (formatString v ++ [10])) = .ok v := by
+  unfold parseString
+  rw [strip_line_of_edges (edges_format v h), parseLoop_format v h]
+
+/-- non-vacuity: a value using every special character the predicate allows, quoted -/
+example : wfValue [32, 9, 34, 92, 35, 59, 10, 110, 116, 98, 11, 12, 8, 32] = true := by decide
+/-- … and one left unquoted -/
+example : wfValue [97, 32, 9, 34, 92, 10, 11, 12, 8, 98] = true := by decide
+example : parseString (formatString [32, 9, 34, 92, 35, 59, 10, 110, 116, 98, 11, 12, 8, 32])
+    = .ok [32, 9, 34, 92, 35, 59, 10, 110, 116, 98, 11, 12, 8, 32] := by decide
+
+/-! ### the excluded classes are real: each is a counterexample to the full statement (§7-F20) -/
+
+/-- `a;b` is written unquoted and read back as `a` -/
 theorem semicolon_counterexample :
-    parseString (formatString [0x61, 0x3b, 0x62]) = .ok [0x61] := by decide
+    formatString [97, 59, 98] = [97, 59, 98] ∧ parseString (formatString [97, 59, 98]) = .ok [97] := by decide
+
+/-- `a<CR>b` is written `a\rb`; the reader has no `r` escape and returns the five bytes `a \ r b` -/
+theorem cr_counterexample :
+    formatString [97, 13, 98] = [97, 92, 114, 98] ∧
+    parseString (formatString [97, 13, 98]) = .ok [97, 92, 114, 98] := by decide
+
+/-- CR is not saved by quoting either -/
+theorem cr_quoted_counterexample :
+    parseString (formatString [32, 13]) = .ok [32, 92, 114] := by decide
+
+/-- a leading VT is written raw and removed by `strip()` -/
+theorem leading_vt_counterexample : parseString (formatString [11, 97]) = .ok [97] := by decide
+
+/-- a trailing FF is written raw and removed by `strip()` -/
+theorem trailing_ff_counterexample : parseString (formatString [97, 12]) = .ok [97] := by decide
+
+theorem valueRoundtripStatement_false : ¬ valueRoundtripStatement := by
+  intro h
+  have := h [97, 59, 98]
+  rw [semicolon_counterexample.2] at this
+  exact absurd this (by decide)
 
 end Dulwich.Props.C20
